@@ -1109,3 +1109,34 @@ mut('c07-forward-declined-silently', 'C07', ['C07.6'], S,
 mut('c08-errored-handler-reruns', 'C08', ['C08.7'], S,
     "            elif existing_result.completed_at is not None:", "            elif existing_result.status == 'completed':",
     'a handler whose result ended in error runs again on re-dispatch')
+mut('c04-inline-branch-needs-history', 'C04', ['C04.7'], M,
+    "            if not self.event_completed_signal.is_set() and inside_handler_context.get() and holds_global_lock.get():",
+    "            tracked = any(self.event_id in b.event_history for b in list(EventBus.all_instances))\n            if not self.event_completed_signal.is_set() and inside_handler_context.get() and holds_global_lock.get() and tracked:",
+    'an event evicted from every history is waited for with the blocking wait while holding the lock')
+mut('c13-await-evicted-blocks', 'C13', ['C13.5'], M,
+    "            if not self.event_completed_signal.is_set() and inside_handler_context.get() and holds_global_lock.get():",
+    "            tracked = any(self.event_id in b.event_history for b in list(EventBus.all_instances))\n            if not self.event_completed_signal.is_set() and inside_handler_context.get() and holds_global_lock.get() and tracked:",
+    'awaiting an evicted event from a handler deadlocks')
+mut('c02-queue-recreated-after-shutdown', 'C02', ['C02.6'], S,
+    "                if self.event_queue is None:\n                    # Set queue size based on whether we have limits",
+    "                if self.event_queue is None or self.event_queue._is_shutdown:\n                    # Set queue size based on whether we have limits",
+    'a shut-down queue (possibly still holding events) is replaced on restart')
+mut('c15-task-done-before-processing', 'C15', ['C15.4'], M,
+    "                                    try:\n                                        await bus.process_event(event)\n                                    finally:\n                                        # always balance the get_nowait(), also when we are cancelled mid-processing,\n                                        # otherwise bus.event_queue.join() / wait_until_idle() would hang forever\n                                        bus.event_queue.task_done()\n",
+    "                                    bus.event_queue.task_done()\n                                    await bus.process_event(event)\n",
+    'join() returns while the event is still being processed inline')
+mut('c18-lookup-memoised', 'C18', ['C18.5'], S,
+    "        applicable_handlers: list[EventHandler] = []\n\n        # Add event-type-specific handlers\n",
+    "        cache = self.__dict__.setdefault('_lookup_cache', {})\n        if event.event_type in cache:\n            return cache[event.event_type]\n        applicable_handlers: list[EventHandler] = []\n\n        # Add event-type-specific handlers\n",
+    'a removed temporary handler keeps being delivered to through a memoised lookup')
+mut('c15-cancel-skips-completed-children', 'C15', ['C15.7'], M,
+    "        for child_event in self.event_children:\n            for result in child_event.event_results.values():\n                if result.status == 'pending':",
+    "        for child_event in self.event_children:\n            if child_event.event_status == 'completed':\n                continue\n            for result in child_event.event_results.values():\n                if result.status == 'pending':",
+    'grandchildren below an interrupted child keep pending results: the bus never becomes idle')
+mut('c12-cache-before-explicit-type', 'C12', ['C12.5'], M,
+    "        # Check if class explicitly defines event_result_type in model_fields\n",
+    "        if cls._event_result_type_cache is not None:\n            data['event_result_type'] = cls._event_result_type_cache\n            return data\n        # Check if class explicitly defines event_result_type in model_fields\n",
+    'inherited cache consulted before the explicit declaration of the class')
+mut('c17-bytes-base64-one-sided', 'C17', ['C17.4'], M,
+    "    model_config = ConfigDict(\n        extra='allow',", "    model_config = ConfigDict(\n        ser_json_bytes='base64',\n        extra='allow',",
+    'bytes payloads are written base64 but read back as the base64 text')
